@@ -353,20 +353,52 @@ class World:
             prs = list(qc.mergeable_prs)
             mq = qc.mergeable_queues
             tips = {}
-            for val in mq.values():
-                qints = val[B.QueueIntegrationBranch]
-                if qints:
-                    # merge_queues: destination.merge(qints[0])
-                    name = str(qints[0])
-                    version = val[B.QueueBranch].version
-                    sha = qints[0].get_latest_commit()
-                    tips[version] = (self.by_qname[name], sha)
+            pairs = merge_queue_tips(B, mq)
+            if isinstance(pairs, str):
+                return ('exception', pairs)
+            for version, src in pairs:
+                tips[version] = (self.by_qname[str(src)],
+                                 src.get_latest_commit())
             failed = list(qc.failed_prs)
         except fg.UnsupportedGitCommand:
             raise
         except Exception as e:      # an outcome, judged by the oracle
             return ('exception', '%s: %s' % (type(e).__name__, str(e)[:200]))
         return ('ok', prs, tips, failed)
+
+
+def merge_queue_tips(B, mq):
+    """Which destination the real merge_queues() fast-forwards to which queue
+    commit: -> [(version, queue-integration branch)] or an error text.
+    Branch.merge / Branch.remove are recorders for the duration of the call
+    (the graph of the fake repository is frozen; on real git the clone is
+    left untouched)."""
+    import bert_e.lib.git as bgit
+    from bert_e.workflow.gitwaterflow import queueing
+    merged = []
+    saved = (bgit.Branch.merge, bgit.Branch.remove)
+
+    def rec_merge(self_, *srcs, **kw):
+        merged.append((str(self_), srcs))
+
+    def rec_remove(self_, *a, **kw):
+        pass
+    bgit.Branch.merge, bgit.Branch.remove = rec_merge, rec_remove
+    try:
+        queueing.merge_queues(mq)
+    finally:
+        bgit.Branch.merge, bgit.Branch.remove = saved
+    dst_version = {str(val[B.QueueBranch].dst_branch):
+                   val[B.QueueBranch].version for val in mq.values()}
+    out, seen = [], set()
+    for dst, srcs in merged:
+        if len(srcs) != 1 or dst not in dst_version or \
+                dst_version[dst] in seen:
+            return 'merge_queues merged %r into %s' % (
+                [str(x) for x in srcs], dst)
+        seen.add(dst_version[dst])
+        out.append((dst_version[dst], srcs[0]))
+    return out
 
 
 def judge(world, state, res, force=False):
@@ -524,16 +556,17 @@ def real_git_compare(world, states):
             try:
                 qc.validate()
                 tips = {}
-                for val in qc.mergeable_queues.values():
-                    qi = val[B.QueueIntegrationBranch]
-                    if qi:
-                        if qi[0].get_latest_commit() != \
-                                rsha[world.by_qname[str(qi[0])]]:
+                pairs = merge_queue_tips(B, qc.mergeable_queues)
+                if isinstance(pairs, str):
+                    real = ('exception', pairs)
+                else:
+                    for version, src in pairs:
+                        if src.get_latest_commit() != \
+                                rsha[world.by_qname[str(src)]]:
                             raise HarnessError('real git: tip sha differs')
-                        tips[val[B.QueueBranch].version] = \
-                            world.by_qname[str(qi[0])]
-                real = ('ok', list(qc.mergeable_prs), tips,
-                        list(qc.failed_prs))
+                        tips[version] = world.by_qname[str(src)]
+                    real = ('ok', list(qc.mergeable_prs), tips,
+                            list(qc.failed_prs))
             except exc.IncoherentQueues as e:
                 real = ('incoherent',
                         sorted(re.findall(r'\[(Q\d+)\]', str(e))))
